@@ -1,8 +1,779 @@
-//! C06 — not built yet.
+//! C06 — JSON index navigation reproduces every valid document's value (DESIGN §4 C06).
+//!
+//! A G-json model is rendered to text with a span table; the index is built and walked
+//! from `index.root(text)` with an explicit stack (documents reach depth 2000). Every
+//! node (values *and* object keys: keys are BP nodes of their own, key/value alternate as
+//! the children of an object) is compared with the model and with its recorded span.
 use crate::engine::*;
+use crate::gen::json::*;
+use crate::oracle::jsonval;
+use serde_json::{json, Value};
+use succinctly::json::light::{JsonCursor, JsonElements, JsonFields, JsonIndex, StandardJson};
 
-pub const RULE: &str = "not built";
+pub const RULE: &str = "G-json documents (model -> text + span table): nesting to 300 levels quick / 2000 thorough via wrap_deep, duplicate keys, every escape form incl. surrogate pairs, every number shape, 0-3 of the four whitespace bytes in every gap incl. around the root, empty containers, scalar roots; thorough adds 64 KiB - 4 MiB documents. The index is walked from the root with an explicit stack; every node (values and keys) is checked against the model value and its recorded span through value(), uncons, Iterator, find/find_cursor (last occurrence), get/get_fast, as_str, as_f64/as_i64, first_child/next_sibling/parent, children(), text_position/text_range/raw_bytes. Non-trivial: depth>=2 and >=1 escape and >=1 non-empty whitespace gap; distinct by hash(text).";
+
+// ------------------------------------------------------------------ shared helpers
+// (also used by C07 and C28)
+
+/// Model node in document (pre-)order: what each span of the span table stands for.
+#[derive(Clone, Copy)]
+pub enum MNode<'a> {
+    Key(&'a str),
+    Val(&'a J),
+}
+
+/// Pre-order list of model nodes (keys included), same order as `Rendered::spans`.
+pub fn model_nodes(root: &J) -> Vec<MNode<'_>> {
+    let mut out = Vec::new();
+    let mut stack: Vec<MNode> = vec![MNode::Val(root)];
+    while let Some(n) = stack.pop() {
+        out.push(n);
+        if let MNode::Val(v) = n {
+            match v {
+                J::Arr(a) => {
+                    for x in a.iter().rev() {
+                        stack.push(MNode::Val(x));
+                    }
+                }
+                J::Obj(f) => {
+                    for (k, x) in f.iter().rev() {
+                        stack.push(MNode::Val(x));
+                        stack.push(MNode::Key(k));
+                    }
+                }
+                _ => {}
+            }
+        }
+    }
+    out
+}
+
+/// first-kid / next-sibling tables over the span table (u32::MAX = none).
+pub struct Shape {
+    pub first_kid: Vec<u32>,
+    pub next_sib: Vec<u32>,
+    pub n_kids: Vec<u32>,
+}
+
+pub const NONE: u32 = u32::MAX;
+
+pub fn shape(r: &Rendered) -> Shape {
+    let n = r.spans.len();
+    let mut first_kid = vec![NONE; n];
+    let mut next_sib = vec![NONE; n];
+    let mut last_kid = vec![NONE; n];
+    let mut n_kids = vec![0u32; n];
+    for (i, sp) in r.spans.iter().enumerate() {
+        if let Some(p) = sp.parent {
+            if last_kid[p] == NONE {
+                first_kid[p] = i as u32;
+            } else {
+                next_sib[last_kid[p] as usize] = i as u32;
+            }
+            last_kid[p] = i as u32;
+            n_kids[p] += 1;
+        }
+    }
+    Shape { first_kid, next_sib, n_kids }
+}
+
+/// Deterministic expansion of a few entropy bytes into a long entropy stream, so that
+/// megabyte documents still get varied per-gap / per-character rendering choices.
+pub fn expand_entropy(seed: u64, n: usize) -> Vec<u8> {
+    let mut v = Vec::with_capacity(n + 8);
+    let mut x = seed;
+    while v.len() < n {
+        x = mix64(x);
+        // small values dominate (most draws are small ranges); sprinkle full bytes
+        let w = x.to_le_bytes();
+        v.extend_from_slice(&w);
+    }
+    v.truncate(n);
+    v
+}
+
+pub fn text_json(text: &[u8]) -> Value {
+    if text.len() <= 6000 {
+        json!({"text": show_bytes(text), "text_hex": hex(text), "len": text.len()})
+    } else {
+        json!({"text": show_bytes(text), "text_hex_prefix": hex(&text[..3000]), "len": text.len(), "hash": format!("{:016x}", hash_bytes(text))})
+    }
+}
+
+fn kind_of<W>(v: &StandardJson<'_, W>) -> &'static str {
+    match v {
+        StandardJson::String(_) => "string",
+        StandardJson::Number(_) => "number",
+        StandardJson::Object(_) => "object",
+        StandardJson::Array(_) => "array",
+        StandardJson::Bool(_) => "boolean",
+        StandardJson::Null => "null",
+        StandardJson::Error(_) => "error",
+    }
+}
+
+fn f64_same(model: f64, got: f64) -> bool {
+    // bit-equal, except that the sign of zero is not promised by the docs
+    if model == 0.0 && got == 0.0 {
+        return true;
+    }
+    model.to_bits() == got.to_bits()
+}
+
+/// Compare one `StandardJson` with a model node, without descending into containers.
+/// `raw` is the recorded source token (None when the caller has no span at hand).
+pub fn shallow_check(
+    v: &StandardJson<'_, Vec<u64>>,
+    m: MNode<'_>,
+    raw: Option<&[u8]>,
+    via: &str,
+    st: &mut Stats,
+) -> Result<(), Fail> {
+    st.evals(1);
+    let mk = match m {
+        MNode::Key(_) => "string",
+        MNode::Val(j) => j.kind(),
+    };
+    if let StandardJson::Error(e) = v {
+        fail!(format!("C06/{}/value-error", via), {"error": e, "model_kind": mk});
+    }
+    check_eq!(format!("C06/{}/kind", via), mk, kind_of(v), {"via": via});
+    match (v, m) {
+        (StandardJson::String(s), MNode::Key(k)) => check_str(s, k, raw, via)?,
+        (StandardJson::String(s), MNode::Val(J::Str(k))) => check_str(s, k, raw, via)?,
+        (StandardJson::Number(n), MNode::Val(J::Num(num))) => {
+            check_eq!(format!("C06/{}/number-raw_bytes", via), show_bytes(num.text.as_bytes()), show_bytes(n.raw_bytes()), {"via": via});
+            match n.as_f64() {
+                Ok(f) => {
+                    if !f64_same(num.value, f) {
+                        fail!(format!("C06/{}/as_f64", via), {"literal": num.text, "expected": format!("{:e}", num.value), "actual": format!("{:e}", f), "expected_bits": format!("{:016x}", num.value.to_bits()), "actual_bits": format!("{:016x}", f.to_bits())});
+                    }
+                }
+                Err(e) => fail!(format!("C06/{}/as_f64-err", via), {"literal": num.text, "error": format!("{:?}", e)}),
+            }
+            if let Some(i) = num.int {
+                match n.as_i64() {
+                    Ok(g) => check_eq!(format!("C06/{}/as_i64", via), i, g, {"literal": num.text}),
+                    Err(e) => fail!(format!("C06/{}/as_i64-err", via), {"literal": num.text, "error": format!("{:?}", e)}),
+                }
+            }
+        }
+        (StandardJson::Bool(b), MNode::Val(J::Bool(c))) => {
+            check_eq!(format!("C06/{}/bool", via), c, b, {"via": via});
+        }
+        (StandardJson::Array(e), MNode::Val(J::Arr(a))) => {
+            check_eq!(format!("C06/{}/elements-is_empty", via), a.is_empty(), e.is_empty(), {"via": via});
+        }
+        (StandardJson::Object(f), MNode::Val(J::Obj(o))) => {
+            check_eq!(format!("C06/{}/fields-is_empty", via), o.is_empty(), f.is_empty(), {"via": via});
+        }
+        _ => {}
+    }
+    Ok(())
+}
+
+fn check_str(s: &succinctly::json::light::JsonString<'_>, k: &str, raw: Option<&[u8]>, via: &str) -> Result<(), Fail> {
+    match s.as_str() {
+        Ok(got) => {
+            if &*got != k {
+                fail!(format!("C06/{}/as_str", via), {"expected": k, "actual": &*got, "expected_bytes": show_bytes(k.as_bytes()), "actual_bytes": show_bytes(got.as_bytes()), "raw": raw.map(show_bytes)});
+            }
+        }
+        Err(e) => fail!(format!("C06/{}/as_str-err", via), {"expected": k, "error": format!("{:?}", e), "raw": raw.map(show_bytes)}),
+    }
+    if let Some(raw) = raw {
+        check_eq!(format!("C06/{}/string-raw_bytes", via), show_bytes(raw), show_bytes(s.raw_bytes()), {"via": via});
+        let (rb, esc) = s.raw_and_escaped();
+        check_eq!(format!("C06/{}/raw_and_escaped-bytes", via), show_bytes(raw), show_bytes(rb), {"via": via});
+        check_eq!(format!("C06/{}/raw_and_escaped-flag", via), raw.contains(&b'\\'), esc, {"raw": show_bytes(raw)});
+    }
+    Ok(())
+}
+
+/// Iteratively rebuild a model value from a `StandardJson` (numbers via `as_f64`),
+/// used by C28 to read evaluation results. Err(description) on any decoding error.
+pub fn std_to_j(v: StandardJson<'_, Vec<u64>>) -> Result<J, String> {
+    enum Fr<'a> {
+        Arr(Vec<J>, JsonElements<'a, Vec<u64>>),
+        Obj(Vec<(String, J)>, Option<String>, JsonFields<'a, Vec<u64>>),
+    }
+    let mut stack: Vec<Fr> = vec![];
+    let mut cur: Option<StandardJson<'_, Vec<u64>>> = Some(v);
+    loop {
+        // produce a finished value, or open a container
+        let mut done: Option<J> = None;
+        if let Some(v) = cur.take() {
+            match v {
+                StandardJson::Null => done = Some(J::Null),
+                StandardJson::Bool(b) => done = Some(J::Bool(b)),
+                StandardJson::Number(n) => {
+                    let f = n.as_f64().map_err(|e| format!("as_f64: {:?}", e))?;
+                    let text = String::from_utf8_lossy(n.raw_bytes()).to_string();
+                    let int = n.as_i64().ok();
+                    done = Some(J::Num(Num { text, value: f, int }));
+                }
+                StandardJson::String(s) => {
+                    done = Some(J::Str(s.as_str().map_err(|e| format!("as_str: {:?}", e))?.into_owned()))
+                }
+                StandardJson::Array(e) => stack.push(Fr::Arr(vec![], e)),
+                StandardJson::Object(f) => stack.push(Fr::Obj(vec![], None, f)),
+                StandardJson::Error(e) => return Err(format!("StandardJson::Error({})", e)),
+            }
+        }
+        loop {
+            match stack.last_mut() {
+                None => return done.ok_or_else(|| "no value".to_string()),
+                Some(Fr::Arr(acc, rest)) => {
+                    if let Some(d) = done.take() {
+                        acc.push(d);
+                    }
+                    match rest.uncons() {
+                        Some((x, r2)) => {
+                            *rest = r2;
+                            cur = Some(x);
+                            break;
+                        }
+                        None => {
+                            if let Some(Fr::Arr(acc, _)) = stack.pop() {
+                                done = Some(J::Arr(acc));
+                            }
+                        }
+                    }
+                }
+                Some(Fr::Obj(acc, key, rest)) => {
+                    if let Some(d) = done.take() {
+                        acc.push((key.take().unwrap_or_default(), d));
+                    }
+                    match rest.uncons() {
+                        Some((fld, r2)) => {
+                            *rest = r2;
+                            let k = match fld.key() {
+                                StandardJson::String(s) => s.as_str().map_err(|e| format!("key as_str: {:?}", e))?.into_owned(),
+                                other => return Err(format!("key is {}", kind_of(&other))),
+                            };
+                            *key = Some(k);
+                            cur = Some(fld.value());
+                            break;
+                        }
+                        None => {
+                            if let Some(Fr::Obj(acc, _, _)) = stack.pop() {
+                                done = Some(J::Obj(acc));
+                            }
+                        }
+                    }
+                }
+            }
+        }
+    }
+}
+
+// ------------------------------------------------------------------ the C06 walk
+
+pub struct Doc {
+    pub root: J,
+    pub r: Rendered,
+    pub opts: RenderOpts,
+    pub wrapped: usize,
+}
+
+fn node_desc(r: &Rendered, i: usize) -> Value {
+    let sp = &r.spans[i];
+    json!({"span_index": i, "start": sp.start, "end": sp.end, "role": format!("{:?}", sp.role), "kind": sp.kind, "depth": sp.depth, "token": show_bytes(&r.text[sp.start..sp.end.min(sp.start + 120)])})
+}
+
+fn sample_indices(u: &mut Src, n: usize, all_below: usize, k: usize) -> Vec<usize> {
+    if n <= all_below {
+        return (0..n).collect();
+    }
+    let mut v = vec![0, 1, n / 2, n - 2, n - 1];
+    for _ in 0..k {
+        v.push(u.below(n));
+    }
+    v.sort();
+    v.dedup();
+    v
+}
+
+/// The whole C06 oracle for one document.
+pub fn check_doc(d: &Doc, u: &mut Src, st: &mut Stats) -> Result<(), Fail> {
+    let text = &d.r.text[..];
+    let r = &d.r;
+    let nodes = model_nodes(&d.root);
+    if nodes.len() != r.spans.len() {
+        fail!("harness/C06/span-table-size", {"nodes": nodes.len(), "spans": r.spans.len()});
+    }
+    let sh = shape(r);
+    let index = JsonIndex::build(text);
+    let root = index.root(text);
+
+    // root moves
+    if let Some(p) = root.parent() {
+        fail!("C06/parent/root-has-parent", {"bp": p.bp_position()});
+    }
+    if let Some(p) = root.next_sibling() {
+        fail!("C06/next_sibling/root-has-sibling", {"bp": p.bp_position()});
+    }
+    st.evals(2);
+
+    let mut stack: Vec<(JsonCursor<'_, Vec<u64>>, u32)> = vec![(root, 0)];
+    let mut visited = 0usize;
+    while let Some((c, ni)) = stack.pop() {
+        let i = ni as usize;
+        visited += 1;
+        let sp = &r.spans[i];
+        let m = nodes[i];
+        let raw = &text[sp.start..sp.end];
+        let cls = if sp.kind == "array" || sp.kind == "object" { "container" } else { sp.kind };
+
+        // positions and spans
+        check_eq!("C06/text_position", Some(sp.start), c.text_position(), {"node": node_desc(r, i)});
+        check_eq!(format!("C06/text_range/{}", cls), Some((sp.start, sp.end)), c.text_range(), {"node": node_desc(r, i)});
+        match c.raw_bytes() {
+            Some(b) if b == raw => {}
+            other => fail!(format!("C06/raw_bytes/{}", cls), {"node": node_desc(r, i), "actual": other.map(show_bytes)}),
+        }
+        st.evals(3);
+
+        // value
+        let v = c.value();
+        shallow_check(&v, m, Some(raw), "value", st).map_err(|mut f| {
+            if let Some(o) = f.detail.as_object_mut() {
+                o.insert("node".into(), node_desc(r, i));
+            }
+            f
+        })?;
+
+        // children: first_child / next_sibling / parent / children()
+        let nk = sh.n_kids[i] as usize;
+        let mut kid_cursors: Vec<JsonCursor<'_, Vec<u64>>> = Vec::with_capacity(nk);
+        let mut kid_idx: Vec<u32> = Vec::with_capacity(nk);
+        {
+            let mut e = sh.first_kid[i];
+            let mut a = c.first_child();
+            loop {
+                match (e != NONE, a) {
+                    (false, None) => break,
+                    (true, Some(ac)) => {
+                        match ac.parent() {
+                            Some(p) if p.bp_position() == c.bp_position() => {}
+                            other => fail!("C06/parent/child-parent-mismatch", {"node": node_desc(r, i), "child": node_desc(r, e as usize), "parent_bp": other.map(|p| p.bp_position()), "expected_bp": c.bp_position()}),
+                        }
+                        kid_cursors.push(ac);
+                        kid_idx.push(e);
+                        e = sh.next_sib[e as usize];
+                        a = ac.next_sibling();
+                    }
+                    (true, None) => fail!("C06/children/too-few", {"node": node_desc(r, i), "expected_children": nk, "got": kid_cursors.len()}),
+                    (false, Some(_)) => fail!("C06/children/too-many", {"node": node_desc(r, i), "expected_children": nk}),
+                }
+            }
+        }
+        check_eq!("C06/children/count", nk, c.children().count(), {"node": node_desc(r, i)});
+        if nk > 0 || !matches!(m, MNode::Val(J::Arr(_)) | MNode::Val(J::Obj(_))) {
+            // (empty containers have no BP children; the fast classifier's doc comment
+            // defines "container" through children, so it is only asserted where it is
+            // unambiguous)
+            check_eq!("C06/is_container", nk > 0, c.is_container(), {"node": node_desc(r, i)});
+        }
+        {
+            // children() yields the same cursors
+            let mut it = c.children();
+            for (k, kc) in kid_cursors.iter().enumerate() {
+                match it.next() {
+                    Some(x) if x.bp_position() == kc.bp_position() => {}
+                    other => fail!("C06/children/iterator-order", {"node": node_desc(r, i), "k": k, "got_bp": other.map(|x| x.bp_position())}),
+                }
+            }
+        }
+        st.evals(2 + nk as u64 * 2);
+
+        match (&v, m) {
+            (StandardJson::Array(elems), MNode::Val(J::Arr(a))) => {
+                // uncons chain + uncons_cursor chain
+                let mut e = *elems;
+                let mut ec = *elems;
+                for (k, x) in a.iter().enumerate() {
+                    let ksp = &r.spans[kid_idx[k] as usize];
+                    match e.uncons() {
+                        Some((xv, rest)) => {
+                            shallow_check(&xv, MNode::Val(x), Some(&text[ksp.start..ksp.end]), "elements-uncons", st)?;
+                            e = rest;
+                        }
+                        None => fail!("C06/elements-uncons/too-few", {"node": node_desc(r, i), "k": k, "len": a.len()}),
+                    }
+                    match ec.uncons_cursor() {
+                        Some((xc, rest)) => {
+                            check_eq!("C06/elements-uncons_cursor/bp", kid_cursors[k].bp_position(), xc.bp_position(), {"node": node_desc(r, i), "k": k});
+                            ec = rest;
+                        }
+                        None => fail!("C06/elements-uncons_cursor/too-few", {"node": node_desc(r, i), "k": k, "len": a.len()}),
+                    }
+                }
+                if e.uncons().is_some() || !e.is_empty() {
+                    fail!("C06/elements-uncons/too-many", {"node": node_desc(r, i), "len": a.len()});
+                }
+                if ec.uncons_cursor().is_some() {
+                    fail!("C06/elements-uncons_cursor/too-many", {"node": node_desc(r, i), "len": a.len()});
+                }
+                // Iterator + cursor_iter
+                let mut n_it = 0usize;
+                for (k, xv) in (*elems).enumerate() {
+                    if k >= a.len() {
+                        fail!("C06/elements-iter/too-many", {"node": node_desc(r, i), "len": a.len()});
+                    }
+                    shallow_check(&xv, MNode::Val(&a[k]), None, "elements-iter", st)?;
+                    n_it += 1;
+                }
+                check_eq!("C06/elements-iter/count", a.len(), n_it, {"node": node_desc(r, i)});
+                let bps: Vec<usize> = elems.cursor_iter().map(|x| x.bp_position()).collect();
+                let exp: Vec<usize> = kid_cursors.iter().map(|x| x.bp_position()).collect();
+                check_eq!("C06/elements-cursor_iter/bps", exp, bps, {"node": node_desc(r, i)});
+                // get / get_fast
+                for k in sample_indices(u, a.len(), 24, 8) {
+                    let ksp = &r.spans[kid_idx[k] as usize];
+                    let raw = Some(&text[ksp.start..ksp.end]);
+                    match elems.get(k) {
+                        Some(xv) => shallow_check(&xv, MNode::Val(&a[k]), raw, "elements-get", st)?,
+                        None => fail!("C06/elements-get/none", {"node": node_desc(r, i), "k": k, "len": a.len()}),
+                    }
+                    match elems.get_fast(k) {
+                        Some(xv) => shallow_check(&xv, MNode::Val(&a[k]), raw, "elements-get_fast", st)?,
+                        None => fail!("C06/elements-get_fast/none", {"node": node_desc(r, i), "k": k, "len": a.len()}),
+                    }
+                }
+                for k in [a.len(), a.len() + 1, a.len() + 64] {
+                    if elems.get(k).is_some() {
+                        fail!("C06/elements-get/past-end-some", {"node": node_desc(r, i), "k": k, "len": a.len()});
+                    }
+                    if elems.get_fast(k).is_some() {
+                        fail!("C06/elements-get_fast/past-end-some", {"node": node_desc(r, i), "k": k, "len": a.len()});
+                    }
+                    st.evals(2);
+                }
+            }
+            (StandardJson::Object(fields), MNode::Val(J::Obj(o))) => {
+                let mut f = *fields;
+                for (k, (key, x)) in o.iter().enumerate() {
+                    let kspan = &r.spans[kid_idx[2 * k] as usize];
+                    let vspan = &r.spans[kid_idx[2 * k + 1] as usize];
+                    match f.uncons() {
+                        Some((fld, rest)) => {
+                            shallow_check(&fld.key(), MNode::Key(key), Some(&text[kspan.start..kspan.end]), "fields-uncons-key", st)?;
+                            shallow_check(&fld.value(), MNode::Val(x), Some(&text[vspan.start..vspan.end]), "fields-uncons-value", st)?;
+                            check_eq!("C06/fields-uncons/key_cursor-bp", kid_cursors[2 * k].bp_position(), fld.key_cursor().bp_position(), {"node": node_desc(r, i), "k": k});
+                            check_eq!("C06/fields-uncons/value_cursor-bp", kid_cursors[2 * k + 1].bp_position(), fld.value_cursor().bp_position(), {"node": node_desc(r, i), "k": k});
+                            f = rest;
+                        }
+                        None => fail!("C06/fields-uncons/too-few", {"node": node_desc(r, i), "k": k, "len": o.len()}),
+                    }
+                }
+                if f.uncons().is_some() || !f.is_empty() {
+                    fail!("C06/fields-uncons/too-many", {"node": node_desc(r, i), "len": o.len()});
+                }
+                let mut n_it = 0usize;
+                for (k, fld) in (*fields).enumerate() {
+                    if k >= o.len() {
+                        fail!("C06/fields-iter/too-many", {"node": node_desc(r, i), "len": o.len()});
+                    }
+                    shallow_check(&fld.key(), MNode::Key(&o[k].0), None, "fields-iter-key", st)?;
+                    shallow_check(&fld.value(), MNode::Val(&o[k].1), None, "fields-iter-value", st)?;
+                    n_it += 1;
+                }
+                check_eq!("C06/fields-iter/count", o.len(), n_it, {"node": node_desc(r, i)});
+                // find / find_cursor: last occurrence
+                for k in sample_indices(u, o.len(), 24, 8) {
+                    let name = &o[k].0;
+                    let last = o.iter().rposition(|(k2, _)| k2 == name).unwrap();
+                    let dup = o.iter().filter(|(k2, _)| k2 == name).count() > 1;
+                    let tag = if dup { "dup" } else { "uniq" };
+                    let vspan = &r.spans[kid_idx[2 * last + 1] as usize];
+                    match fields.find(name) {
+                        Some(xv) => shallow_check(&xv, MNode::Val(&o[last].1), Some(&text[vspan.start..vspan.end]), &format!("find-{}", tag), st)?,
+                        None => fail!(format!("C06/find-{}/none", tag), {"node": node_desc(r, i), "name": name}),
+                    }
+                    match fields.find_cursor(name) {
+                        Some(xc) => {
+                            check_eq!(format!("C06/find_cursor-{}/bp", tag), kid_cursors[2 * last + 1].bp_position(), xc.bp_position(), {"node": node_desc(r, i), "name": name, "last_occurrence": last, "this_occurrence": k});
+                        }
+                        None => fail!(format!("C06/find_cursor-{}/none", tag), {"node": node_desc(r, i), "name": name}),
+                    }
+                    st.evals(1);
+                    if dup {
+                        st.class("find-on-duplicated-key");
+                    }
+                }
+                // absent names
+                let mut absent = vec![String::from("\u{1}absent\u{10ffff}"), String::new(), String::from("a")];
+                if let Some((k0, _)) = o.first() {
+                    absent.push(format!("{}x", k0));
+                    if !k0.is_empty() {
+                        let mut cs: Vec<char> = k0.chars().collect();
+                        cs.pop();
+                        absent.push(cs.into_iter().collect());
+                    }
+                }
+                for name in absent {
+                    if o.iter().any(|(k2, _)| *k2 == name) {
+                        continue;
+                    }
+                    if fields.find(&name).is_some() {
+                        fail!("C06/find/absent-some", {"node": node_desc(r, i), "name": name});
+                    }
+                    if fields.find_cursor(&name).is_some() {
+                        fail!("C06/find_cursor/absent-some", {"node": node_desc(r, i), "name": name});
+                    }
+                    st.evals(2);
+                }
+            }
+            _ => {}
+        }
+        for (k, kc) in kid_cursors.iter().enumerate().rev() {
+            stack.push((*kc, kid_idx[k]));
+        }
+    }
+    check_eq!("C06/walk/visited-all-nodes", r.spans.len(), visited, {"len": text.len()});
+    Ok(())
+}
+
+// ------------------------------------------------------------------ generation
+
+fn gen_doc(u: &mut Src, deep_list: &[usize], max_nodes: usize) -> Doc {
+    let deep = u.ratio(1, 7);
+    let o = GenOpts {
+        max_depth: if deep { u.range(0, 3) } else { *u.pick(&[1, 2, 3, 4, 6, 8, 12]) },
+        max_nodes: if deep {
+            u.range(1, 12)
+        } else {
+            match u.below(5) {
+                0 => u.range(1, 8),
+                1 => u.range(8, 60),
+                _ => u.range(20, max_nodes),
+            }
+        },
+        dup_keys: !u.ratio(1, 4),
+        strings: *u.pick(&[StrPalette::Full, StrPalette::Full, StrPalette::Full, StrPalette::Ascii]),
+        keys: *u.pick(&[KeyPalette::AsStrings, KeyPalette::AsStrings, KeyPalette::Ident, KeyPalette::Hostile]),
+        numbers: *u.pick(&[2, 2, 2, 1]),
+        max_str_len: *u.pick(&[4, 24, 24, 80]),
+    };
+    let mut root = gen_value(u, &o);
+    let mut wrapped = 0;
+    if deep {
+        wrapped = *u.pick(deep_list);
+        if u.ratio(1, 3) {
+            wrapped = u.range(100, *deep_list.iter().max().unwrap_or(&300));
+        }
+        root = wrap_deep(u, root, wrapped);
+    }
+    let mut opts = render_opts(u);
+    if deep && wrapped > 300 && opts.ws == Ws::Pretty {
+        // (indentation makes a depth-2000 text ~100x longer and every container's
+        // text_range is a scan to its own end)
+        opts.ws = Ws::Random;
+    }
+    let r = render(&root, u, opts);
+    Doc { root, r, opts, wrapped }
+}
+
+pub fn classify(d: &Doc, st: &mut Stats) {
+    let depth = d.r.spans.iter().map(|s| s.depth + if s.kind == "array" || s.kind == "object" { 1 } else { 0 }).max().unwrap_or(0);
+    let text = &d.r.text;
+    let nt = depth >= 2 && d.r.n_escapes >= 1 && d.r.n_ws_gaps >= 1;
+    if nt {
+        st.nontrivial(hash_bytes(text));
+    }
+    st.class_if(nt, "nontrivial");
+    st.class_if(depth > 128, "depth>128");
+    st.class_if(depth > 256, "depth>256");
+    st.class_if(depth > 1000, "depth>1000");
+    st.class_if(d.root.has_dup_keys(), "duplicate-keys");
+    st.class_if(d.r.n_surrogate_pairs > 0, "surrogate-pairs");
+    st.class_if(d.r.n_escapes > 0, "escapes");
+    st.class_if(text.len() > 64 * 1024, ">64KiB");
+    st.class_if(text.len() > 1024 * 1024, ">1MiB");
+    st.class_if(!d.root.is_container(), "scalar-root");
+    let nodes = model_nodes(&d.root);
+    let mut exp = false;
+    let mut empty = false;
+    let mut bigint = false;
+    let mut negzero = false;
+    for n in &nodes {
+        if let MNode::Val(v) = n {
+            match v {
+                J::Num(x) => {
+                    exp |= x.text.contains('e') || x.text.contains('E');
+                    bigint |= x.int.is_none() && !x.text.contains(|c| c == '.' || c == 'e' || c == 'E');
+                    negzero |= x.value == 0.0 && x.text.starts_with('-');
+                }
+                J::Arr(a) => empty |= a.is_empty(),
+                J::Obj(o) => empty |= o.is_empty(),
+                _ => {}
+            }
+        }
+    }
+    st.class_if(exp, "number-with-exponent");
+    st.class_if(bigint, "integer-beyond-i64");
+    st.class_if(negzero, "negative-zero");
+    st.class_if(empty, "empty-container");
+    let t = text;
+    let lead = t.first().map_or(false, |b| b.is_ascii_whitespace());
+    let trail = t.last().map_or(false, |b| b.is_ascii_whitespace());
+    st.class_if(lead, "whitespace-before-root");
+    st.class_if(trail, "whitespace-after-root");
+    // whitespace bytes that occur outside strings
+    let mut seen = [false; 4];
+    let mut in_str = false;
+    let mut k = 0;
+    while k < t.len() {
+        let b = t[k];
+        if in_str {
+            if b == b'\\' {
+                k += 1;
+            } else if b == b'"' {
+                in_str = false;
+            }
+        } else {
+            match b {
+                b'"' => in_str = true,
+                b' ' => seen[0] = true,
+                b'\n' => seen[1] = true,
+                b'\r' => seen[2] = true,
+                b'\t' => seen[3] = true,
+                _ => {}
+            }
+        }
+        k += 1;
+    }
+    for (s, name) in seen.iter().zip(["ws-space", "ws-lf", "ws-cr", "ws-tab"]) {
+        st.class_if(*s, name);
+    }
+    st.class(&format!("ws-{:?}", d.opts.ws));
+    st.class(&format!("esc-{:?}", d.opts.esc));
+    st.size(text.len());
+    let cls = if depth > 128 { "deep" } else if d.root.has_dup_keys() { "dup" } else if d.r.n_surrogate_pairs > 0 { "surrogate" } else { "plain" };
+    st.sample(cls, || json!({"text": show_bytes(&text[..text.len().min(300)]), "len": text.len(), "depth": depth, "nodes": nodes.len()}));
+}
+
+fn run_case(d: Doc, u: &mut Src, st: &mut Stats) -> Result<(), Fail> {
+    classify(&d, st);
+    st.describe(|| text_json(&d.r.text));
+    // generator self-check against the harness' own parser (two independent harness parts)
+    match jsonval::parse_one(&d.r.text) {
+        Ok(back) => {
+            let same = j_eq(&d.root, &back);
+            drop_deep(back);
+            if !same {
+                fail!("harness/C06/model-vs-jsonval", {"text": show_bytes(&d.r.text)});
+            }
+        }
+        Err(e) => fail!("harness/C06/jsonval-rejects-generated", {"err": format!("{:?}", e)}),
+    }
+    let res = check_doc(&d, u, st);
+    let Doc { root, .. } = d;
+    drop_deep(root);
+    res
+}
+
+fn replay_input(v: &Value) -> Option<Fail> {
+    // {"input": {"doc": "<json text>"}}: the text is parsed by O-jsonval and re-rendered
+    // compactly (the span table comes from the renderer), then walked.
+    let doc = v["input"]["doc"].as_str().unwrap_or("null");
+    let root = match jsonval::parse_one(doc.as_bytes()) {
+        Ok(j) => j,
+        Err(e) => return Some(Fail::new("harness/C06/replay-doc-unparseable", json!({"err": format!("{:?}", e)}))),
+    };
+    let mut u = Src::new(&[]);
+    let opts = RenderOpts { ws: Ws::None, esc: Esc::Minimal, outer_ws: false };
+    let r = render(&root, &mut u, opts);
+    let d = Doc { root, r, opts, wrapped: 0 };
+    let mut st = Stats::default();
+    check_doc(&d, &mut u, &mut st).err()
+}
 
 pub fn run(cx: &mut Ctx) {
-    cx.infra("check not built");
+    cx.assume("expected values and spans come from the G-json model and the renderer's span table (harness code); O-jsonval re-parses every generated text as a generator self-check");
+    cx.assume("as_f64 is compared bit-for-bit with Rust's correctly rounded parse of the literal, except the sign of zero; as_i64 is asserted only for plain integer literals that fit i64");
+    cx.assume("is_container() is not asserted for empty containers (its doc comment defines containers through BP children)");
+    for (name, v) in cx.replays.clone() {
+        if v["kind"] == "input" {
+            let r = replay_input(&v);
+            cx.replay_outcome(&name, r);
+        }
+    }
+    let thorough = cx.tier == Tier::Thorough;
+    let deep_list: &[usize] = if thorough {
+        &[127, 128, 129, 130, 255, 256, 257, 300, 511, 512, 513, 1000, 2000]
+    } else {
+        &[127, 128, 129, 130, 255, 256, 257, 300]
+    };
+    let max_nodes = if thorough { 600 } else { 250 };
+    cx.check(
+        "walk-vs-model",
+        RULE,
+        Budget { quick: 150_000, thorough: 1_000_000, max_len: if thorough { 40_000 } else { 14_000 } },
+        |u, st| {
+            let d = gen_doc(u, deep_list, max_nodes);
+            run_case(d, u, st)
+        },
+    );
+    for cl in [
+        "nontrivial",
+        "depth>128",
+        "depth>256",
+        "duplicate-keys",
+        "find-on-duplicated-key",
+        "surrogate-pairs",
+        "number-with-exponent",
+        "integer-beyond-i64",
+        "empty-container",
+        "scalar-root",
+        "whitespace-before-root",
+        "ws-lf",
+        "ws-cr",
+        "ws-tab",
+        "ws-space",
+    ] {
+        cx.require_class("walk-vs-model", cl, 20);
+    }
+    if thorough {
+        cx.require_class("walk-vs-model", "depth>1000", 20);
+        // large documents: a generated pool of values tiled into a big root container,
+        // rendered from an expanded entropy stream (so gaps/escapes keep varying)
+        cx.check(
+            "walk-vs-model-large",
+            RULE,
+            Budget { quick: 0, thorough: 120, max_len: 16_000 },
+            |u, st| {
+                let o = GenOpts {
+                    max_depth: u.range(1, 6),
+                    max_nodes: u.range(20, 400),
+                    dup_keys: u.bool(),
+                    ..GenOpts::default()
+                };
+                let pool: Vec<J> = (0..u.range(2, 6)).map(|_| gen_value(u, &o)).collect();
+                let pool_nodes: usize = pool.iter().map(|p| p.node_count()).sum::<usize>().max(1) / pool.len();
+                let target_nodes = *u.pick(&[4_000usize, 10_000, 30_000, 100_000, 250_000]);
+                let copies = (target_nodes / pool_nodes.max(1)).clamp(2, 200_000);
+                let as_obj = u.bool();
+                let root = if as_obj {
+                    let dup_every = if u.bool() { u.range(2, 50) } else { usize::MAX };
+                    J::Obj((0..copies).map(|i| {
+                        let key = if dup_every != usize::MAX && i % dup_every == dup_every - 1 { format!("k{}", i - 1) } else { format!("k{}", i) };
+                        (key, pool[i % pool.len()].clone())
+                    }).collect())
+                } else {
+                    J::Arr((0..copies).map(|i| pool[(i * 7 + i / 3) % pool.len()].clone()).collect())
+                };
+                let opts = render_opts(u);
+                let approx = root.node_count() * 40;
+                let ent = expand_entropy(u.u64(), approx.min(24 << 20));
+                let mut ru = Src::new(&ent);
+                let r = render(&root, &mut ru, opts);
+                let d = Doc { root, r, opts, wrapped: 0 };
+                run_case(d, u, st)
+            },
+        );
+        cx.require_class("walk-vs-model-large", ">64KiB", 20);
+        cx.require_class("walk-vs-model-large", ">1MiB", 5);
+    }
 }
